@@ -418,6 +418,23 @@ func generate(tier string, r *rng.R) []fw.Case {
 	return cs
 }
 
+// search: the wider stream used only after the correspondence broke without a Spec failure
+// among the first disagreements — interleavings with several `w` steps per caller first (a
+// variant that needs more requests per call only completes there), then short exhaustive
+// schedules, then random ones.
+func search(r *rng.R) []fw.Case {
+	var cs []fw.Case
+	cs = append(cs, longPrograms(2, 3, exhStores, "search:n=2,r+3w")...)
+	cs = append(cs, longPrograms(2, 4, exhStores[1:], "search:n=2,r+4w")...)
+	cs = append(cs, longPrograms(3, 2, exhStores, "search:n=3,r+2w")...)
+	cs = append(cs, exhaustive(2, 1, exhStores, "search:n=2,+1ev")...)
+	cs = append(cs, exhaustive(3, 0, exhStores, "search:n=3")...)
+	for len(cs) < 20000 {
+		cs = append(cs, genRandom(r.Fork(), 6, 40))
+	}
+	return cs
+}
+
 // non-trivial: at least two calls were launched, at least one number was handed out, and the
 // schedule is not a plain sequence of undisturbed calls (a refused CAS, an error, a dead or
 // pending caller, or a foreign write/delete occurred).
@@ -493,6 +510,7 @@ func init() {
 			"no-op steps, initial key absent/number/near-wrap/junk. non-trivial = >=2 calls launched, >=1 number handed out and the calls " +
 			"were disturbed (refused CAS, error, dead/pending caller or foreign write/delete); distinct by input text",
 		Shrink:   shrinkCands,
+		Search:   search,
 		Workers:  nRigs,
 		Setup:    setup,
 		Teardown: teardown,
